@@ -270,7 +270,7 @@ inline std::string diffStructure(const Snapshot &a, const Snapshot &b) {
   if (a.pinCells != b.pinCells) return "pin-cells";
   if (a.pinX != b.pinX || a.pinY != b.pinY) return "pin-offsets";
   if (a.netWeights.size() != b.netWeights.size() ||
-      memcmp(a.netWeights.data(), b.netWeights.data(), a.netWeights.size() * sizeof(float)) != 0)
+      (!a.netWeights.empty() && memcmp(a.netWeights.data(), b.netWeights.data(), a.netWeights.size() * sizeof(float)) != 0))
     return "net-weights";
   if (a.w != b.w) return "cell-width";
   if (a.h != b.h) return "cell-height";
